@@ -94,15 +94,13 @@ var jfieldCache = map[string][]jfield{}
 // jsonFields flattens the fields of a struct type like encoding/json does
 // (simplified: no conflict resolution between equally named embedded fields).
 func jsonFields(st *types.Struct) []jfield {
-	var out []jfield
-	seen := map[string]bool{}
+	type cand struct {
+		f     jfield
+		depth int
+	}
+	var all []cand
 	var walk func(st *types.Struct, prefix []int, depth int)
 	walk = func(st *types.Struct, prefix []int, depth int) {
-		type pend struct {
-			st  *types.Struct
-			idx []int
-		}
-		var embedded []pend
 		for i := 0; i < st.NumFields(); i++ {
 			f := st.Field(i)
 			tag := reflect.StructTag(st.Tag(i)).Get("json")
@@ -117,7 +115,7 @@ func jsonFields(st *types.Struct) []jfield {
 					ft = pt.Elem()
 				}
 				if est, ok := ft.Underlying().(*types.Struct); ok {
-					embedded = append(embedded, pend{est, idx})
+					walk(est, idx, depth+1)
 					continue
 				}
 			}
@@ -127,17 +125,36 @@ func jsonFields(st *types.Struct) []jfield {
 			if name == "" {
 				name = f.Name()
 			}
-			if seen[name] {
-				continue
-			}
-			seen[name] = true
-			out = append(out, jfield{name: name, index: idx, typ: f.Type(), omitEmpty: strings.Contains(","+opts+",", ",omitempty,"), asString: strings.Contains(","+opts+",", ",string,")})
-		}
-		for _, e := range embedded {
-			walk(e.st, e.idx, depth+1)
+			all = append(all, cand{jfield{name: name, index: idx, typ: f.Type(), omitEmpty: strings.Contains(","+opts+",", ",omitempty,"), asString: strings.Contains(","+opts+",", ",string,")}, depth})
 		}
 	}
 	walk(st, nil, 0)
+	// the shallowest field of a name wins
+	best := map[string]int{}
+	for _, c := range all {
+		if d, ok := best[c.f.name]; !ok || c.depth < d {
+			best[c.f.name] = c.depth
+		}
+	}
+	var out []jfield
+	seen := map[string]bool{}
+	for _, c := range all {
+		if c.depth != best[c.f.name] || seen[c.f.name] {
+			continue
+		}
+		seen[c.f.name] = true
+		out = append(out, c.f)
+	}
+	// encoding/json orders fields by index sequence
+	sort.SliceStable(out, func(i, j int) bool {
+		a, b := out[i].index, out[j].index
+		for k := 0; k < len(a) && k < len(b); k++ {
+			if a[k] != b[k] {
+				return a[k] < b[k]
+			}
+		}
+		return len(a) < len(b)
+	})
 	return out
 }
 
